@@ -116,8 +116,9 @@ def download_segmented(idx, sub, data, size_indicated=True, announce=None, fill_
             return Outcome("ok", stats={"mode": "seg", "segments": nseg})
 
 
-def download_block(idx, sub, data, size_indicated=True, crc=False, lose=None, announce=None, pad_rng=None):
-    """lose(block_no, seqno, nsegs_in_block) -> True if that segment is lost on the bus (never for the block's final segment)."""
+def download_block(idx, sub, data, size_indicated=True, crc=False, lose=None, announce=None, pad_rng=None, empty_last=False):
+    """lose(block_no, seqno, nsegs_in_block) -> True if that segment is lost on the bus (never for the block's final segment).
+       empty_last: the data fills whole segments and the client ends with a last segment that carries the c bit only (end request n = 7)."""
     size = len(data) if announce is None else announce
     cmd = 0xC0 | (0x04 if crc else 0) | (0x02 if size_indicated else 0)
     resp = yield bytes([cmd]) + mux(idx, sub) + (le32(size) if size_indicated else bytes(4))
@@ -132,17 +133,17 @@ def download_block(idx, sub, data, size_indicated=True, crc=False, lose=None, an
         raise Deviation("blk-down-blksize", "block size %d outside 1..127" % blksize)
     if r[5:8] != bytes(3):
         raise Deviation("blk-down-init-reserved", "reserved bytes not zero: " + r.hex())
-    pos = 0            # bytes acknowledged so far
+    allsegs = [data[i:i + 7] for i in range(0, len(data), 7)]
+    if empty_last and data and len(data) % 7 == 0:
+        allsegs.append(b"")
+    pos = 0            # segments acknowledged so far
     blocks = 0
     retrans = 0
     last_len = 0
-    while pos < len(data):
+    while pos < len(allsegs):
         # one block: up to blksize segments starting at pos
-        segs = []
-        p = pos
-        while len(segs) < blksize and p < len(data):
-            segs.append(data[p:p + 7]); p += 7
-        final_block = p >= len(data)
+        segs = allsegs[pos:pos + blksize]
+        final_block = pos + len(segs) >= len(allsegs)
         nin = len(segs)
         inorder = 0
         broken = False
@@ -179,8 +180,7 @@ def download_block(idx, sub, data, size_indicated=True, crc=False, lose=None, an
                 blksize = r[2]
         if inorder < nin:
             retrans += 1
-        acked = b"".join(segs[:inorder])
-        pos += len(acked)
+        pos += inorder
         if inorder > 0:
             last_len = len(segs[inorder - 1])
         blocks += 1
